@@ -97,10 +97,10 @@ TEXTS = {
     },
     "C09": {
         "text": "Lean theorems: for fixed counters the crlf rendering equals the lf rendering with terminators substituted; every emitted "
-                "break is the configured newline; whitespace counters ignore CR. C09_format_full_crlf_config: for the closed model of the whole formatter (search inside) formatting with crlf gives exactly the lf result with each terminator substituted, under the decidable premise crlfOk computed from the lf run (every multi-line literal ends in a quote; both runs rewrite the same literals; nothing emitted verbatim holds a line break) - the search cannot see the line ending (Config.searchCfg, FTok.sview); mls_rewrite_crlf: the re-indenter's two results differ exactly by the substitution; counterexample theorems show each premise is needed. The premise is tallied on every case of the full stream (info_c09: holds on about 78 %). The lf/crlf and LF/CRLF-input relations are also checked "
+                "break is the configured newline; whitespace counters ignore CR. C09_format_full_crlf_config: for the closed model of the whole formatter (search inside) formatting with crlf gives exactly the lf result with each terminator substituted, under the decidable premise crlfOk computed from the lf run (every multi-line literal ends in a quote; both runs rewrite the same literals; nothing emitted verbatim holds a line break) - the search cannot see the line ending (Config.searchCfg, FTok.sview); mls_rewrite_crlf: the re-indenter's two results differ exactly by the substitution; counterexample theorems show each premise is needed. The premise is tallied on every case of the full stream (info_c09: holds on about 78 %). C09_input_endings_full_checked (third clause): the same text with LF and with CRLF line breaks are two layouts of the same tokens, so the layout theorem applies whenever its decidable premise holds for the pair (no token containing a line break, no verbatim token with one before it): both are formatted to the same bytes; evaluated on every pair of the input_endings stream (info_c06: about 90 %). The lf/crlf and LF/CRLF-input relations are also checked "
                 "as oracles on the real formatter for every case.",
         "design_ref": "DESIGN.md section 5 (C09), 12.8",
-        "note": "The input-ending clause (LF vs CRLF input) is decided by the oracle, not by a theorem; known findings F25, F35. Trusted: "
+        "note": "Known findings F25, F35 (both about line-spanning tokens, outside the premises). Trusted: "
                 "Lean kernel, translator, harness, model.",
         "technique": "Lean 4 proof over executable model + differential correspondence + metamorphic oracle",
     },
